@@ -1,4 +1,4 @@
-import Rivaas.Lemmas.RadixParams
+import Rivaas.Lemmas.RadixSearch
 import Rivaas.Lemmas.MatchOrder
 /-
 Layer L1 of C01 assembled: a method tree filled from a list of routes, looked up with the model's
@@ -41,21 +41,6 @@ theorem entriesOf_ok (R : List Route) (hR : ∀ r ∈ R, patOK r.pat) (m : Bytes
   obtain ⟨r, ⟨hr, _⟩, rfl⟩ := he
   exact hR r hr
 
-theorem lastSome_some {α β} (f : α → Option β) (l : List α) (v : β) (h : lastSome f l = some v) :
-    ∃ a ∈ l, f a = some v := by
-  induction l with
-  | nil => simp [lastSome] at h
-  | cons b rest ih =>
-    simp only [lastSome] at h
-    cases hr : lastSome f rest with
-    | some w =>
-      rw [hr] at h; simp at h
-      obtain ⟨a, ha, hfa⟩ := ih (by rw [hr, h])
-      exact ⟨a, List.mem_cons_of_mem _ ha, hfa⟩
-    | none =>
-      rw [hr] at h; simp at h
-      exact ⟨b, List.mem_cons_self .., h⟩
-
 theorem lastSome_suff {α β} (f : α → Option β) (l1 l2 : List α) (a : α) (v : β) (ha : f a = some v)
     (h2 : ∀ c ∈ l2, f c = none) : lastSome f (l1 ++ a :: l2) = some v := by
   induction l1 with
@@ -69,186 +54,6 @@ theorem lastSome_suff {α β} (f : α → Option β) (l1 l2 : List α) (a : α) 
         rfl
     simp [this, ha]
   | cons b rest ih => simp [lastSome, ih]
-
-/-- **Soundness of the tree lookup, unconditionally**: whatever `walk` returns is the leaf of a
-registered route of the tree whose pattern matches the path segment-wise. -/
-theorem walk_sound (sat : Nat → Bytes → Bool) (R : List Route) (hR : ∀ r ∈ R, patOK r.pat) (m : Bytes)
-    (trail : Bool) (segs : List Bytes) (st : Ctx × List (Bytes × Bytes)) (ctx' : Ctx) (lf : Leaf)
-    (h : okOf (walkGen false false sat (nodesOf (entriesOf R m)) trail [] st segs) = some (lf, ctx')) :
-    ∃ r ∈ R, r.method = m ∧ inTree r = true ∧ lf = leafOf r ∧ (matchPat trail r.pat segs).isSome = true := by
-  have hL := entriesOf_ok R hR m
-  rw [walk_eq_descend] at h
-  cases hd : descend (nodesOf (entriesOf R m)) trail [] segs with
-  | none => simp [hd] at h
-  | some res =>
-    obtain ⟨k, w, ps⟩ := res
-    simp only [hd, Option.bind_some, finish] at h
-    obtain ⟨q, hkq, hmk⟩ := descend_shape _ _ _ _ _ _ _ hd
-    simp only [List.nil_append] at hkq
-    subst hkq
-    -- the leaf found at the node
-    have hleaf : ∃ e ∈ entriesOf R m, e.lf = lf ∧ strip e.pat k = some (if w then [PSeg.wild] else []) := by
-      cases w with
-      | true =>
-        simp only [if_true] at h ⊢
-        rw [nodesOf_wild _ hL] at h
-        cases hl : lastSome (fun e : Entry => if strip e.pat k = some [PSeg.wild] then some e.lf else none) (entriesOf R m) with
-        | none => simp [hl] at h
-        | some lf' =>
-          obtain ⟨e, he, hfe⟩ := lastSome_some _ _ _ hl
-          simp only [hl] at h
-          by_cases hs : strip e.pat k = some [PSeg.wild]
-          · simp only [hs, if_true, Option.some.injEq] at hfe
-            refine ⟨e, he, ?_, hs⟩
-            by_cases hv : validate sat lf'.cons (boundCtx false lf' (pushAllT st ps)) = true
-            · simp only [hv, if_true, Option.some.injEq, Prod.mk.injEq] at h
-              rw [hfe, h.1]
-            · simp [hv] at h
-          · simp [hs] at hfe
-      | false =>
-        simp only [Bool.false_eq_true, if_false] at h ⊢
-        rw [nodesOf_leaf _ hL] at h
-        cases hl : lastSome (fun e : Entry => if strip e.pat k = some [] then some e.lf else none) (entriesOf R m) with
-        | none => simp [hl] at h
-        | some lf' =>
-          obtain ⟨e, he, hfe⟩ := lastSome_some _ _ _ hl
-          simp only [hl] at h
-          by_cases hs : strip e.pat k = some []
-          · simp only [hs, if_true, Option.some.injEq] at hfe
-            refine ⟨e, he, ?_, hs⟩
-            by_cases hv : validate sat lf'.cons (boundCtx false lf' (pushAllT st ps)) = true
-            · simp only [hv, if_true, Option.some.injEq, Prod.mk.injEq] at h
-              rw [hfe, h.1]
-            · simp [hv] at h
-          · simp [hs] at hfe
-    obtain ⟨e, he, helf, hes⟩ := hleaf
-    simp only [entriesOf, List.mem_map, List.mem_filter, Bool.and_eq_true, decide_eq_true_eq] at he
-    obtain ⟨r, ⟨hr, hrm, hrt⟩, rfl⟩ := he
-    refine ⟨r, hr, hrm, hrt, by simp [← helf, toEntry], ?_⟩
-    -- the key is the entry's key, the wildness the entry's
-    have hok : (toEntry r).ok := hR r hr
-    have hpat := toEntry_pat r
-    have hkw : k = ekeys (toEntry r).bp ∧ w = (toEntry r).w := by
-      unfold Entry.pat at hes
-      cases hw : (toEntry r).w <;> cases w <;> simp only [hw, if_true, if_false, Bool.false_eq_true] at hes
-      · exact ⟨(strip_eq_tail _ [] hok (Or.inl rfl) k).mp hes, rfl⟩
-      · exfalso
-        simp only [List.append_nil] at hes
-        obtain ⟨pre, hp, _⟩ := strip_split _ _ _ hes
-        unfold Entry.ok at hok
-        rw [hp] at hok
-        simp [litOK] at hok
-      · exfalso
-        obtain ⟨pre, hp, hlen⟩ := strip_split _ _ _ hes
-        simp only [List.append_nil] at hp
-        rw [← hp] at hlen
-        have hle := List.length_filterMap_le ekey (toEntry r).bp
-        simp only [List.filterMap_append, List.filterMap_cons, ekey, List.filterMap_nil, List.length_append,
-          List.length_nil, List.length_cons] at hlen
-        omega
-      · exact ⟨(strip_eq_tail _ [PSeg.wild] hok (Or.inr rfl) k).mp hes, rfl⟩
-    obtain ⟨hk, hw⟩ := hkw
-    rw [hk, hw, matchKey_entry _ hok] at hmk
-    rw [← hpat]
-    exact hmk
-
-
-/-- **Soundness and priority of the tree lookup, unconditionally**: whatever `walk` returns is the leaf
-of a registered route of the tree whose pattern matches, and no registered pattern of the tree that
-matches the same segments beats it. -/
-theorem walk_sound_max (sat : Nat → Bytes → Bool) (R : List Route) (hR : ∀ r ∈ R, patOK r.pat) (m : Bytes)
-    (trail : Bool) (segs : List Bytes) (st : Ctx × List (Bytes × Bytes)) (ctx' : Ctx) (lf : Leaf)
-    (h : okOf (walkGen false false sat (nodesOf (entriesOf R m)) trail [] st segs) = some (lf, ctx')) :
-    ∃ r ∈ R, r.method = m ∧ inTree r = true ∧ lf = leafOf r ∧ (matchPat trail r.pat segs).isSome = true ∧
-      ∀ r' ∈ R, r'.method = m → inTree r' = true → (matchPat trail r'.pat segs).isSome = true →
-        better r'.pat r.pat = false := by
-  have hL := entriesOf_ok R hR m
-  rw [walk_eq_descend] at h
-  cases hd : descend (nodesOf (entriesOf R m)) trail [] segs with
-  | none => simp [hd] at h
-  | some res =>
-    obtain ⟨k, w, ps⟩ := res
-    simp only [hd, Option.bind_some, finish] at h
-    obtain ⟨q, hkq, hmk⟩ := descend_shape _ _ _ _ _ _ _ hd
-    simp only [List.nil_append] at hkq
-    subst hkq
-    -- the leaf found at the node
-    have hleaf : ∃ e ∈ entriesOf R m, e.lf = lf ∧ strip e.pat k = some (if w then [PSeg.wild] else []) := by
-      cases w with
-      | true =>
-        simp only [if_true] at h ⊢
-        rw [nodesOf_wild _ hL] at h
-        cases hl : lastSome (fun e : Entry => if strip e.pat k = some [PSeg.wild] then some e.lf else none) (entriesOf R m) with
-        | none => simp [hl] at h
-        | some lf' =>
-          obtain ⟨e, he, hfe⟩ := lastSome_some _ _ _ hl
-          simp only [hl] at h
-          by_cases hs : strip e.pat k = some [PSeg.wild]
-          · simp only [hs, if_true, Option.some.injEq] at hfe
-            refine ⟨e, he, ?_, hs⟩
-            by_cases hv : validate sat lf'.cons (boundCtx false lf' (pushAllT st ps)) = true
-            · simp only [hv, if_true, Option.some.injEq, Prod.mk.injEq] at h
-              rw [hfe, h.1]
-            · simp [hv] at h
-          · simp [hs] at hfe
-      | false =>
-        simp only [Bool.false_eq_true, if_false] at h ⊢
-        rw [nodesOf_leaf _ hL] at h
-        cases hl : lastSome (fun e : Entry => if strip e.pat k = some [] then some e.lf else none) (entriesOf R m) with
-        | none => simp [hl] at h
-        | some lf' =>
-          obtain ⟨e, he, hfe⟩ := lastSome_some _ _ _ hl
-          simp only [hl] at h
-          by_cases hs : strip e.pat k = some []
-          · simp only [hs, if_true, Option.some.injEq] at hfe
-            refine ⟨e, he, ?_, hs⟩
-            by_cases hv : validate sat lf'.cons (boundCtx false lf' (pushAllT st ps)) = true
-            · simp only [hv, if_true, Option.some.injEq, Prod.mk.injEq] at h
-              rw [hfe, h.1]
-            · simp [hv] at h
-          · simp [hs] at hfe
-    obtain ⟨e, he, helf, hes⟩ := hleaf
-    simp only [entriesOf, List.mem_map, List.mem_filter, Bool.and_eq_true, decide_eq_true_eq] at he
-    obtain ⟨r, ⟨hr, hrm, hrt⟩, rfl⟩ := he
-    refine ⟨r, hr, hrm, hrt, by simp [← helf, toEntry], ?_, ?_⟩
-    rotate_left
-    · intro r' hr' hrm' hrt' hmatch'
-      have hmem' : toEntry r' ∈ entriesOf R m := by
-        simp only [entriesOf, List.mem_map, List.mem_filter, Bool.and_eq_true, decide_eq_true_eq]
-        exact ⟨r', ⟨hr', hrm', hrt'⟩, rfl⟩
-      have hd' : descend (nodesOf (entriesOf R m)) trail [] segs = some ([] ++ k, w, ps) := by simpa using hd
-      have := descend_max (entriesOf R m) hL trail segs [] k w ps hd' r.pat (by rw [← toEntry_pat r]; exact hes)
-        (toEntry r') hmem' r'.pat (by rw [strip_nil_key, toEntry_pat]) hmatch'
-      exact this
-    -- the key is the entry's key, the wildness the entry's
-    have hok : (toEntry r).ok := hR r hr
-    have hpat := toEntry_pat r
-    have hkw : k = ekeys (toEntry r).bp ∧ w = (toEntry r).w := by
-      unfold Entry.pat at hes
-      cases hw : (toEntry r).w <;> cases w <;> simp only [hw, if_true, if_false, Bool.false_eq_true] at hes
-      · exact ⟨(strip_eq_tail _ [] hok (Or.inl rfl) k).mp hes, rfl⟩
-      · exfalso
-        simp only [List.append_nil] at hes
-        obtain ⟨pre, hp, _⟩ := strip_split _ _ _ hes
-        unfold Entry.ok at hok
-        rw [hp] at hok
-        simp [litOK] at hok
-      · exfalso
-        obtain ⟨pre, hp, hlen⟩ := strip_split _ _ _ hes
-        simp only [List.append_nil] at hp
-        rw [← hp] at hlen
-        have hle := List.length_filterMap_le ekey (toEntry r).bp
-        simp only [List.filterMap_append, List.filterMap_cons, ekey, List.filterMap_nil, List.length_append,
-          List.length_nil, List.length_cons] at hlen
-        omega
-      · exact ⟨(strip_eq_tail _ [PSeg.wild] hok (Or.inr rfl) k).mp hes, rfl⟩
-    obtain ⟨hk, hw⟩ := hkw
-    rw [hk, hw, matchKey_entry _ hok] at hmk
-    rw [← hpat]
-    exact hmk
-
-
-/-! ### the guards of Spec/MatchClass give the hypotheses of the descent lemmas -/
 
 theorem mem_entriesOf {R : List Route} {m : Bytes} {e : Entry} (he : e ∈ entriesOf R m) :
     ∃ r ∈ R, r.method = m ∧ inTree r = true ∧ e = toEntry r := by
@@ -264,26 +69,6 @@ theorem mem_dynRoutes {R : List Route} {m : Bytes} {r : Route} (hr : r ∈ R) (h
   rcases ht with h | h
   · simp [h]
   · exact absurd h hne
-
-theorem noShadow_of (R : List Route) (m : Bytes) (p : RPath) (ρ : Route)
-    (hstat : staticHit R m p = false) (hrho : rho R m p = some ρ) (hS : dShadow1 R m p = false) :
-    NoShadowAt (entriesOf R m) [] ρ.pat p.segs := by
-  intro e' he' suf' hs i a b x hpre ha hb hx hc
-  obtain ⟨r', hr', hm', ht', rfl⟩ := mem_entriesOf he'
-  rw [strip_nil_key, toEntry_pat] at hs
-  injection hs with hs; subst hs
-  have hne : r'.pat ≠ [] := by intro e; rw [e] at ha; simp at ha
-  have hdyn := mem_dynRoutes hr' hm' ht' hne
-  simp only [dShadow1, hstat, Bool.not_false, Bool.true_and, hrho] at hS
-  have h1 := Bool.eq_false_iff.mpr ((List.any_eq_false.mp hS) r' hdyn)
-  have hi : i < ρ.pat.length := by
-    rcases Nat.lt_or_ge i ρ.pat.length with h | h
-    · exact h
-    · rw [List.getElem?_eq_none h] at hb; cases hb
-  have h2 := Bool.eq_false_iff.mpr ((List.any_eq_false.mp h1) i (List.mem_range.mpr hi))
-  simp only [hpre, ha, hb, hx, hc, Bool.true_and, decide_eq_false_iff_not] at h2
-  omega
-
 
 /-! ### bindings and names -/
 
@@ -526,133 +311,350 @@ theorem inTree_notStatic (r : Route) (trail : Bool) (segs : List Bytes) (hseg : 
 theorem notStatic_inTree (r : Route) (h : isStaticPat r.pat = false) : inTree r = true := by
   simp [inTree, h]
 
+
+/-! ### the search against the reference choice (since the K01b/K01f repair) -/
+
+/-- the parameter writes along a pattern depend on its node key only -/
+theorem pushesFor_key (ns : Nodes) (trail : Bool) (t : Pat) (ba : Pat) :
+    ∀ (bb : Pat) (cur : Key) (segs : List Bytes), ba.all litOK = true → bb.all litOK = true → ekeys ba = ekeys bb →
+      pushesFor ns trail cur (ba ++ t) segs = pushesFor ns trail cur (bb ++ t) segs := by
+  induction ba with
+  | nil =>
+    intro bb cur segs _ hb hk
+    cases bb with
+    | nil => rfl
+    | cons y ys =>
+      simp only [List.all_cons, Bool.and_eq_true] at hb
+      cases y <;> simp [ekeys, ekey, litOK] at hk hb
+  | cons x xs ih =>
+    intro bb cur segs ha hb hk
+    simp only [List.all_cons, Bool.and_eq_true] at ha
+    cases bb with
+    | nil => cases x <;> simp [ekeys, ekey, litOK] at hk ha
+    | cons y ys =>
+      simp only [List.all_cons, Bool.and_eq_true] at hb
+      cases x with
+      | wild => simp [litOK] at ha
+      | lit sx =>
+        cases y with
+        | wild => simp [litOK] at hb
+        | par ny => simp [ekeys, ekey] at hk
+        | lit sy =>
+          have hk' : sx = sy ∧ ekeys xs = ekeys ys := by simpa [ekeys, ekey] using hk
+          obtain ⟨rfl, hk2⟩ := hk'
+          cases segs with
+          | nil => simp [pushesFor]
+          | cons z zs =>
+            simp only [List.cons_append, pushesFor]
+            exact ih ys _ zs ha.2 hb.2 hk2
+      | par nx =>
+        cases y with
+        | wild => simp [litOK] at hb
+        | lit sy => simp [ekeys, ekey] at hk
+        | par ny =>
+          have hk2 : ekeys xs = ekeys ys := by simpa [ekeys, ekey] using hk
+          cases segs with
+          | nil => simp [pushesFor]
+          | cons z zs =>
+            simp only [List.cons_append, pushesFor]
+            rw [ih ys _ zs ha.2 hb.2 hk2]
+
+/-- patterns with the same node key and the same wildness have the same shape -/
+theorem shapeEq_of_key (t : Pat) (ht : t = [] ∨ t = [PSeg.wild]) (ba : Pat) :
+    ∀ (bb : Pat), ba.all litOK = true → bb.all litOK = true → ekeys ba = ekeys bb → shapeEq (ba ++ t) (bb ++ t) = true := by
+  induction ba with
+  | nil =>
+    intro bb _ hb hk
+    cases bb with
+    | nil => rcases ht with rfl | rfl <;> simp [shapeEq, sameShape]
+    | cons y ys =>
+      simp only [List.all_cons, Bool.and_eq_true] at hb
+      cases y <;> simp [ekeys, ekey, litOK] at hk hb
+  | cons x xs ih =>
+    intro bb ha hb hk
+    simp only [List.all_cons, Bool.and_eq_true] at ha
+    cases bb with
+    | nil => cases x <;> simp [ekeys, ekey, litOK] at hk ha
+    | cons y ys =>
+      simp only [List.all_cons, Bool.and_eq_true] at hb
+      cases x with
+      | wild => simp [litOK] at ha
+      | lit sx =>
+        cases y with
+        | wild => simp [litOK] at hb
+        | par ny => simp [ekeys, ekey] at hk
+        | lit sy =>
+          have hk' : sx = sy ∧ ekeys xs = ekeys ys := by simpa [ekeys, ekey] using hk
+          obtain ⟨rfl, hk2⟩ := hk'
+          simp [shapeEq, sameShape, ih ys ha.2 hb.2 hk2]
+      | par nx =>
+        cases y with
+        | wild => simp [litOK] at hb
+        | lit sy => simp [ekeys, ekey] at hk
+        | par ny =>
+          have hk2 : ekeys xs = ekeys ys := by simpa [ekeys, ekey] using hk
+          simp [shapeEq, sameShape, ih ys ha.2 hb.2 hk2]
+
+/-- the leaf (or wildcard leaf) a node holds is the leaf of a registered route of the tree that ends at
+that node in that way -/
+theorem node_route (R : List Route) (hR : ∀ r ∈ R, patOK r.pat) (m : Bytes) (k : Key) (w : Bool) (lf : Leaf)
+    (h : (if w then (getK (nodesOf (entriesOf R m)) k).wild else (getK (nodesOf (entriesOf R m)) k).leaf) = some lf) :
+    ∃ r ∈ R, r.method = m ∧ inTree r = true ∧ lf = leafOf r ∧ k = ekeys (bodyOf r.pat) ∧ w = endsWild r.pat := by
+  have hL := entriesOf_ok R hR m
+  have hleaf : ∃ e ∈ entriesOf R m, e.lf = lf ∧ strip e.pat k = some (if w then [PSeg.wild] else []) := by
+    cases w with
+    | true =>
+      simp only [if_true] at h ⊢
+      rw [nodesOf_wild _ hL] at h
+      obtain ⟨e, he, hfe⟩ := lastSome_some _ _ _ h
+      by_cases hs : strip e.pat k = some [PSeg.wild]
+      · simp only [hs, if_true, Option.some.injEq] at hfe
+        exact ⟨e, he, hfe, hs⟩
+      · simp [hs] at hfe
+    | false =>
+      simp only [Bool.false_eq_true, if_false] at h ⊢
+      rw [nodesOf_leaf _ hL] at h
+      obtain ⟨e, he, hfe⟩ := lastSome_some _ _ _ h
+      by_cases hs : strip e.pat k = some []
+      · simp only [hs, if_true, Option.some.injEq] at hfe
+        exact ⟨e, he, hfe, hs⟩
+      · simp [hs] at hfe
+  obtain ⟨e, he, helf, hes⟩ := hleaf
+  obtain ⟨r, hr, hrm, hrt, rfl⟩ := mem_entriesOf he
+  have hok : (toEntry r).ok := hR r hr
+  have hkw : k = ekeys (toEntry r).bp ∧ w = (toEntry r).w := by
+    unfold Entry.pat at hes
+    cases hw : (toEntry r).w <;> cases w <;> simp only [hw, if_true, if_false, Bool.false_eq_true] at hes
+    · exact ⟨(strip_eq_tail _ [] hok (Or.inl rfl) k).mp hes, rfl⟩
+    · exfalso
+      simp only [List.append_nil] at hes
+      obtain ⟨pre, hp, _⟩ := strip_split _ _ _ hes
+      unfold Entry.ok at hok
+      rw [hp] at hok
+      simp [litOK] at hok
+    · exfalso
+      obtain ⟨pre, hp, hlen⟩ := strip_split _ _ _ hes
+      simp only [List.append_nil] at hp
+      rw [← hp] at hlen
+      have hle := List.length_filterMap_le ekey (toEntry r).bp
+      simp only [List.filterMap_append, List.filterMap_cons, ekey, List.filterMap_nil, List.length_append,
+        List.length_nil, List.length_cons] at hlen
+      omega
+    · exact ⟨(strip_eq_tail _ [PSeg.wild] hok (Or.inr rfl) k).mp hes, rfl⟩
+  exact ⟨r, hr, hrm, hrt, by simp [← helf, toEntry], hkw.1, hkw.2⟩
+
+theorem matchPat_some_of_isSome {trail : Bool} {pat : Pat} {segs : List Bytes} (h : (matchPat trail pat segs).isSome = true) :
+    ∃ b, matchPat trail pat segs = some b := by
+  cases hm : matchPat trail pat segs with
+  | none => rw [hm] at h; simp at h
+  | some b => exact ⟨b, rfl⟩
+
+/-- what a node accepts, read as a route: the node a matching route `r` ends at answers with the leaf of
+a registered route `r2` of the same shape (the last one registered) that matches the path, constraints
+included, and with `r2`'s own bindings -/
+theorem accAt_route (sat : Nat → Bytes → Bool) (R : List Route) (hR : ∀ r ∈ R, patOK r.pat)
+    (hD : ∀ r ∈ R, distinct (declNames r.pat) = true) (m : Bytes) (p : RPath)
+    (r : Route) (hr : r ∈ R) (hmatch : (matchPat p.trail r.pat p.segs).isSome = true) (res : Leaf × Ctx)
+    (h : accAt sat (nodesOf (entriesOf R m)) p.trail [] (Ctx.fresh, []) r.pat p.segs = some res) :
+    ∃ r2 ∈ R, r2.method = m ∧ inTree r2 = true ∧ ekeys (bodyOf r2.pat) = ekeys (bodyOf r.pat) ∧
+      endsWild r2.pat = endsWild r.pat ∧
+      ∃ b2, routeMatch sat r2 p = some b2 ∧ res = (leafOf r2, pushAll Ctx.fresh b2) := by
+  unfold accAt at h
+  simp only [List.nil_append] at h
+  cases hlf : (if endsWild r.pat = true then (getK (nodesOf (entriesOf R m)) (ekeys r.pat)).wild
+      else (getK (nodesOf (entriesOf R m)) (ekeys r.pat)).leaf) with
+  | none => rw [hlf] at h; simp [acceptsGen] at h
+  | some lf =>
+    rw [hlf] at h
+    obtain ⟨r2, hr2, hr2m, hr2t, hlf2, hk, hw⟩ := node_route R hR m _ _ lf hlf
+    rw [← ekeys_body r.pat] at hk
+    have hm2 : (matchPat p.trail r2.pat p.segs).isSome = true := by
+      rw [matchPat_isSome_key _ _ (hR r2 hr2), ← hk, ← hw, ← matchPat_isSome_key _ _ (hR r hr)]
+      exact hmatch
+    obtain ⟨b2, hb2⟩ := matchPat_some_of_isSome hm2
+    -- the captures along r are the captures along r2
+    have hpush : pushesFor (nodesOf (entriesOf R m)) p.trail [] r.pat p.segs =
+        pushesFor (nodesOf (entriesOf R m)) p.trail [] r2.pat p.segs := by
+      conv => lhs; rw [pat_split r.pat]
+      conv => rhs; rw [pat_split r2.pat]
+      rw [← hw]
+      exact pushesFor_key _ _ _ _ _ _ _ (hR r hr) (hR r2 hr2) hk
+    have hvals := pushesFor_vals (nodesOf (entriesOf R m)) p.trail p.segs [] r2.pat b2 hb2
+    have hnames : (leafOf r2).names = b2.map (·.1) := by rw [matchPat_keys _ _ _ _ hb2]; rfl
+    have hbound : boundCtx false lf (pushAllT (Ctx.fresh, [])
+        (pushesFor (nodesOf (entriesOf R m)) p.trail [] r.pat p.segs)) = pushAll Ctx.fresh b2 := by
+      rw [hpush, hlf2]
+      have hlen : (leafOf r2).names.length = (pushesFor (nodesOf (entriesOf R m)) p.trail [] r2.pat p.segs).length := by
+        have h2 := congrArg List.length hvals
+        simp only [List.length_map] at h2
+        rw [hnames, List.length_map, h2]
+      rw [bound_fresh _ _ hlen, hvals, hnames, zip_fst_snd]
+    have hkeys : distinct (b2.map (·.1)) = true := by rw [matchPat_keys _ _ _ _ hb2]; exact hD r2 hr2
+    have hv : validate sat lf.cons (pushAll Ctx.fresh b2) = consOK sat r2.cons b2 := by
+      rw [hlf2]; exact validate_pushAll sat r2.cons b2 hkeys
+    simp only [acceptsGen, hbound, hv] at h
+    by_cases hc : consOK sat r2.cons b2 = true
+    · simp only [hc, if_true, Option.some.injEq] at h
+      refine ⟨r2, hr2, hr2m, hr2t, hk.symm, hw.symm, b2, by simp [routeMatch, hb2, hc], ?_⟩
+      rw [← h, hlf2]
+    · simp [hc] at h
+
+/-- **Soundness of the tree lookup, unconditionally** (pattern, constraints and bindings): whatever the
+search returns is the leaf of a registered route of the tree that matches the path — constraints included —
+together with the context holding exactly that route's own bindings. -/
+theorem walk_sound (sat : Nat → Bytes → Bool) (R : List Route) (hR : ∀ r ∈ R, patOK r.pat)
+    (hD : ∀ r ∈ R, distinct (declNames r.pat) = true) (m : Bytes) (p : RPath) (res : Leaf × Ctx)
+    (h : walkGen false false false sat (nodesOf (entriesOf R m)) p.trail [] (Ctx.fresh, []) p.segs = some res) :
+    ∃ r ∈ R, r.method = m ∧ inTree r = true ∧ ∃ b, routeMatch sat r p = some b ∧ res = (leafOf r, pushAll Ctx.fresh b) := by
+  have hL := entriesOf_ok R hR m
+  obtain ⟨e, suf, hc, hacc⟩ := walk_some sat (entriesOf R m) hL p.trail p.segs [] (Ctx.fresh, []) res h
+  obtain ⟨r, hr, _, _, rfl⟩ := mem_entriesOf hc.mem
+  have hs := hc.str
+  rw [strip_nil_key, toEntry_pat] at hs
+  injection hs with hs; subst hs
+  obtain ⟨r2, hr2, hr2m, hr2t, _, _, b2, hrm2, hres⟩ := accAt_route sat R hR hD m p r hr hc.mat res hacc
+  exact ⟨r2, hr2, hr2m, hr2t, b2, hrm2, hres⟩
+
+theorem laterThan_split (ρ : Route) (R : List Route) (h : ρ ∈ R) : ∃ R1, R = R1 ++ ρ :: laterThan ρ R := by
+  induction R with
+  | nil => simp at h
+  | cons r rest ih =>
+    by_cases hr : r = ρ
+    · subst hr; exact ⟨[], by simp [laterThan]⟩
+    · simp only [List.mem_cons] at h
+      rcases h with h | h
+      · exact absurd h.symm hr
+      · obtain ⟨R1, hR1⟩ := ih h
+        refine ⟨r :: R1, ?_⟩
+        simp only [laterThan, hr, if_false, List.cons_append]
+        rw [← hR1]
+
+theorem rm_isSome_match {sat : Nat → Bytes → Bool} {r : Route} {p : RPath} (h : (routeMatch sat r p).isSome = true) :
+    (matchPat p.trail r.pat p.segs).isSome = true := by
+  unfold routeMatch at h
+  cases hm : matchPat p.trail r.pat p.segs with
+  | none => simp [hm] at h
+  | some b => rfl
+
+/-- **The tree lookup is the reference choice** unless the route the reference selects was replaced by a
+later registration of its shape (`dReplaced1`, K01c). -/
 theorem walk_ref (sat : Nat → Bytes → Bool) (R : List Route) (hR : ∀ r ∈ R, patOK r.pat)
     (hD : ∀ r ∈ R, distinct (declNames r.pat) = true) (m : Bytes) (p : RPath) (hseg : p.segs ≠ [])
-    (hstat : staticHit R m p = false)
-    (hS : dShadow1 R m p = false) (hC : dCfall1 sat R m p = false) :
-    okOf (walkGen false false sat (nodesOf (entriesOf R m)) p.trail [] (Ctx.fresh, []) p.segs) =
+    (hstat : staticHit R m p = false) (hOw : dReplaced1 sat R m p = false) :
+    walkGen false false false sat (nodesOf (entriesOf R m)) p.trail [] (Ctx.fresh, []) p.segs =
       (refRoute sat R m p).map fun r => (leafOf r, pushAll Ctx.fresh ((routeMatch sat r p).getD [])) := by
   have hL := entriesOf_ok R hR m
-  have hcands := cands_eq sat R m p hstat
-  have hSCm : ∀ c ∈ shapeCands R m p, (matchPat p.trail c.pat p.segs).isSome = true := by
+  have hcandsM : ∀ c ∈ cands sat R m p, (matchPat p.trail c.pat p.segs).isSome = true := by
     intro c hc
-    simp only [shapeCands, List.mem_filter] at hc
-    exact hc.2
-  cases hrho : rho R m p with
+    have := (List.mem_filter.mp hc).2
+    simp only [decide_eq_true_eq] at this
+    exact rm_isSome_match this.2
+  cases href : refRoute sat R m p with
   | none =>
-    have hSC : shapeCands R m p = [] := pick_none_nil _ hrho
-    have href : refRoute sat R m p = none := by
-      unfold refRoute; rw [hcands, hSC]; rfl
-    rw [href]
-    cases hw : okOf (walkGen false false sat (nodesOf (entriesOf R m)) p.trail [] (Ctx.fresh, []) p.segs) with
+    simp only [Option.map_none]
+    cases hw : walkGen false false false sat (nodesOf (entriesOf R m)) p.trail [] (Ctx.fresh, []) p.segs with
     | none => rfl
     | some res =>
       exfalso
-      obtain ⟨lf, ctx'⟩ := res
-      obtain ⟨r, hr, hrm, hrt, _, hmatch⟩ := walk_sound sat R hR m p.trail p.segs _ _ _ hw
-      have hns := inTree_notStatic r p.trail p.segs hseg hrt hmatch
-      have : r ∈ shapeCands R m p := by
-        simp only [shapeCands, dynRoutes, List.mem_filter, decide_eq_true_eq]
-        exact ⟨⟨hr, hrm, by simp [hns]⟩, hmatch⟩
-      rw [hSC] at this; simp at this
+      obtain ⟨r, hr, hrm, _, b, hb, _⟩ := walk_sound sat R hR hD m p res hw
+      have hmem : r ∈ cands sat R m p := by
+        simp only [cands, List.mem_filter, decide_eq_true_eq]
+        exact ⟨hr, hrm, by rw [hb]; rfl⟩
+      have hnil : cands sat R m p = [] := pick_none_nil _ href
+      rw [hnil] at hmem; simp at hmem
   | some ρ =>
-    have hrho' : pick none (shapeCands R m p) = some ρ := hrho
-    rcases pick_nec p.trail p.segs _ none ρ hSCm (by intro c hc; cases hc) hrho' with ⟨h, _⟩ | ⟨l1, l2, hl12, _, h1, h2⟩
+    simp only [Option.map_some]
+    have hpick : pick none (cands sat R m p) = some ρ := href
+    rcases pick_nec p.trail p.segs _ none ρ hcandsM (by intro c hc; cases hc) hpick with ⟨h, _⟩ | ⟨l1, l2, hl12, _, h1, h2⟩
     · cases h
-    have hρSC : ρ ∈ shapeCands R m p := by rw [hl12]; simp
-    have hρ : ρ ∈ R ∧ ρ.method = m ∧ isStaticPat ρ.pat = false ∧ (matchPat p.trail ρ.pat p.segs).isSome = true := by
-      simp only [shapeCands, dynRoutes, List.mem_filter, decide_eq_true_eq] at hρSC
-      obtain ⟨⟨a, b, c⟩, d⟩ := hρSC
-      exact ⟨a, b, by simpa using c, d⟩
-    obtain ⟨hρR, hρm, hρns, hρmatch⟩ := hρ
+    have hρc : ρ ∈ cands sat R m p := by rw [hl12]; simp
+    have hρ := List.mem_filter.mp hρc
+    simp only [decide_eq_true_eq] at hρ
+    obtain ⟨hρR, hρm, hρrm⟩ := hρ
+    have hρmatch := rm_isSome_match hρrm
+    obtain ⟨b, hb⟩ := matchPat_some_of_isSome hρmatch
+    have hcons : consOK sat ρ.cons b = true := by
+      unfold routeMatch at hρrm
+      rw [hb] at hρrm
+      by_cases hc : consOK sat ρ.cons b = true
+      · exact hc
+      · simp [hc] at hρrm
+    have hrm : routeMatch sat ρ p = some b := by simp [routeMatch, hb, hcons]
+    -- ρ lives in the tree
+    have hρns : isStaticPat ρ.pat = false := by
+      cases hsp : isStaticPat ρ.pat with
+      | false => rfl
+      | true =>
+        exfalso
+        have : staticHit R m p = true := by
+          simp only [staticHit, List.any_eq_true, decide_eq_true_eq]
+          exact ⟨ρ, hρR, hρm, by simp [hsp], hρmatch⟩
+        rw [hstat] at this; exact absurd this (by simp)
     have hρt : inTree ρ = true := notStatic_inTree ρ hρns
-    obtain ⟨b, hb⟩ : ∃ b, matchPat p.trail ρ.pat p.segs = some b := by
-      cases hmm : matchPat p.trail ρ.pat p.segs with
-      | none => rw [hmm] at hρmatch; simp at hρmatch
-      | some b => exact ⟨b, rfl⟩
-    -- position of ρ in R
-    have hSCfilter : shapeCands R m p =
-        R.filter fun r => (matchPat p.trail r.pat p.segs).isSome && (decide (r.method = m ∧ ¬ isStaticPat r.pat = true)) := by
-      unfold shapeCands dynRoutes
-      rw [List.filter_filter]
-    rw [hSCfilter] at hl12
-    obtain ⟨Ra, Rb, hRab, hRa, hRb⟩ := List.filter_eq_append_iff.mp hl12
-    obtain ⟨Rc, R2, hRb2, _, _, hR2⟩ := List.filter_eq_cons_iff.mp hRb
-    have hRsplit : R = (Ra ++ Rc) ++ ρ :: R2 := by rw [hRab, hRb2]; simp
-    -- the descent reaches ρ's node
     have hmem : toEntry ρ ∈ entriesOf R m := by
       simp only [entriesOf, List.mem_map, List.mem_filter, Bool.and_eq_true, decide_eq_true_eq]
       exact ⟨ρ, ⟨hρR, hρm, hρt⟩, rfl⟩
     have hstrip : strip (toEntry ρ).pat [] = some ρ.pat := by rw [strip_nil_key, toEntry_pat]
-    have hdesc := descend_complete (entriesOf R m) hL p.trail p.segs hseg [] ρ.pat ⟨toEntry ρ, hmem, hstrip⟩ hρmatch
-      (noShadow_of R m p ρ hstat hrho hS)
-    have hvals := pushesFor_vals (nodesOf (entriesOf R m)) p.trail p.segs [] ρ.pat b hb
-    rw [walk_eq_descend, hdesc]
-    simp only [List.nil_append, Option.bind_some, finish]
-    -- the leaf there is ρ's
-    have hleaf := leaf_at (Ra ++ Rc) R2 ρ (by rw [← hRsplit]; exact hR) m hρm hρt (by
+    have hcand : Cand (entriesOf R m) p.trail [] p.segs (toEntry ρ) ρ.pat := ⟨hmem, hstrip, hρmatch⟩
+    -- the node ρ ends at still holds ρ's leaf
+    obtain ⟨R1, hRsplit⟩ := laterThan_split ρ R hρR
+    have hleaf := leaf_at R1 (laterThan ρ R) ρ (by rw [← hRsplit]; exact hR) m hρm hρt (by
       intro r hr hrm hrt hk hw
       have hrR : r ∈ R := by rw [hRsplit]; simp [hr]
-      have hrmatch : (matchPat p.trail r.pat p.segs).isSome = true := by
-        rw [matchPat_isSome_key _ _ (hR r hrR), hk, hw, ← matchPat_isSome_key _ _ (hR ρ hρR)]
-        exact hρmatch
-      have hrns := inTree_notStatic r p.trail p.segs hseg hrt hrmatch
-      have hrl2 : r ∈ l2 := by
-        rw [← hR2]
-        simp only [List.mem_filter, Bool.and_eq_true, decide_eq_true_eq]
-        exact ⟨hr, hrmatch, hrm, by simp [hrns]⟩
-      have hb1 := h2 r hrl2
-      have hb2 : better ρ.pat r.pat = false := by
-        rw [pat_split ρ.pat, pat_split r.pat]
-        apply better_same_key _ _ _ _ (hR ρ hρR) (hR r hrR) hk.symm (by rw [hw])
-        cases endsWild ρ.pat <;> simp
-      rw [hb1] at hb2; exact absurd hb2 (by simp))
+      have hshape : shapeEq r.pat ρ.pat = true := by
+        rw [pat_split r.pat, pat_split ρ.pat, hw]
+        exact shapeEq_of_key _ (by cases endsWild ρ.pat <;> simp) _ _ (hR r hrR) (hR ρ hρR) hk
+      simp only [dReplaced1, href] at hOw
+      have := (List.any_eq_false.mp hOw) r hr
+      simp [hrm, hshape] at this)
     rw [← hRsplit, ekeys_body] at hleaf
-    have hleaf' : (if endsWild ρ.pat = true then (getK (nodesOf (entriesOf R m)) (ekeys ρ.pat)).wild
-        else (getK (nodesOf (entriesOf R m)) (ekeys ρ.pat)).leaf) = some (leafOf ρ) := hleaf
-    rw [hleaf']
-    -- the captured values under ρ's own names are ρ's bindings
+    -- what that node answers
+    have hvals := pushesFor_vals (nodesOf (entriesOf R m)) p.trail p.segs [] ρ.pat b hb
+    have hnames : (leafOf ρ).names = b.map (·.1) := by rw [matchPat_keys _ _ _ _ hb]; rfl
     have hbound : boundCtx false (leafOf ρ) (pushAllT (Ctx.fresh, [])
         (pushesFor (nodesOf (entriesOf R m)) p.trail [] ρ.pat p.segs)) = pushAll Ctx.fresh b := by
       have hlen : (leafOf ρ).names.length = (pushesFor (nodesOf (entriesOf R m)) p.trail [] ρ.pat p.segs).length := by
-        have h1 : (leafOf ρ).names = b.map (·.1) := by rw [matchPat_keys _ _ _ _ hb]; rfl
         have h2 := congrArg List.length hvals
         simp only [List.length_map] at h2
-        rw [h1, List.length_map, h2]
-      rw [bound_fresh _ _ hlen, hvals]
-      have h1 : (leafOf ρ).names = b.map (·.1) := by rw [matchPat_keys _ _ _ _ hb]; rfl
-      rw [h1, zip_fst_snd]
-    simp only [hbound]
-    -- constraints
+        rw [hnames, List.length_map, h2]
+      rw [bound_fresh _ _ hlen, hvals, hnames, zip_fst_snd]
     have hkeys : distinct (b.map (·.1)) = true := by rw [matchPat_keys _ _ _ _ hb]; exact hD ρ hρR
     have hv : validate sat (leafOf ρ).cons (pushAll Ctx.fresh b) = consOK sat ρ.cons b :=
       validate_pushAll sat ρ.cons b hkeys
-    have hSCsplit : shapeCands R m p = l1 ++ ρ :: l2 := by
-      rw [hSCfilter]; exact hl12
-    by_cases hcons : consOK sat ρ.cons b = true
-    · have hrm : routeMatch sat ρ p = some b := by simp [routeMatch, hb, hcons]
-      have href : refRoute sat R m p = some ρ := by
-        unfold refRoute
-        rw [hcands, hSCsplit, List.filter_append, List.filter_cons]
-        simp only [hrm, Option.isSome_some, if_true]
-        apply pick_suff
-        · intro c hc; cases hc
-        · intro c hc; exact h1 c (List.mem_filter.mp hc).1
-        · intro c hc; exact h2 c (List.mem_filter.mp hc).1
-      simp only [hv, hcons, if_true, href, Option.map_some, hrm, Option.getD_some]
-    · have hrm : routeMatch sat ρ p = none := by simp [routeMatch, hb, hcons]
-      have hany : (shapeCands R m p).any (fun r => (routeMatch sat r p).isSome) = false := by
-        simp only [dCfall1, hstat, Bool.not_false, Bool.true_and, hrho, hrm, Option.isNone_none] at hC
-        exact hC
-      have href : refRoute sat R m p = none := by
-        unfold refRoute
-        rw [hcands]
-        have : (shapeCands R m p).filter (fun r => (routeMatch sat r p).isSome) = [] := by
-          apply List.filter_eq_nil_iff.mpr
-          intro a ha
-          have := (List.any_eq_false.mp hany) a ha
-          exact this
-        rw [this]; rfl
-      simp only [hv, hcons, Bool.false_eq_true, if_false, href, Option.map_none]
+    have hacc : accAt sat (nodesOf (entriesOf R m)) p.trail [] (Ctx.fresh, []) ρ.pat p.segs =
+        some (leafOf ρ, pushAll Ctx.fresh b) := by
+      unfold accAt
+      simp only [List.nil_append]
+      rw [hleaf]
+      simp only [acceptsGen, hbound, hv, hcons, if_true]
+    -- no node that accepts beats ρ
+    have hmax : MaxAcc sat (entriesOf R m) p.trail [] (Ctx.fresh, []) p.segs ρ.pat := by
+      intro e' suf' hc' hacc'
+      obtain ⟨r', hr', _, _, rfl⟩ := mem_entriesOf hc'.mem
+      have hs' := hc'.str
+      rw [strip_nil_key, toEntry_pat] at hs'
+      injection hs' with hs'; subst hs'
+      obtain ⟨res', hres'⟩ : ∃ res', accAt sat (nodesOf (entriesOf R m)) p.trail [] (Ctx.fresh, []) r'.pat p.segs = some res' := by
+        cases hh : accAt sat (nodesOf (entriesOf R m)) p.trail [] (Ctx.fresh, []) r'.pat p.segs with
+        | none => rw [hh] at hacc'; simp at hacc'
+        | some v => exact ⟨v, rfl⟩
+      obtain ⟨r2, hr2, hr2m, _, hk2, hw2, b2, hrm2, _⟩ := accAt_route sat R hR hD m p r' hr' hc'.mat res' hres'
+      have hr2c : r2 ∈ cands sat R m p := by
+        simp only [cands, List.mem_filter, decide_eq_true_eq]
+        exact ⟨hr2, hr2m, by rw [hrm2]; rfl⟩
+      have hr2ρ : better r2.pat ρ.pat = false := by
+        rw [hl12] at hr2c
+        simp only [List.mem_append, List.mem_cons] at hr2c
+        rcases hr2c with hin | rfl | hin
+        · exact h1 r2 hin
+        · exact better_irrefl _
+        · exact better_asymm _ _ (h2 r2 hin)
+      have hr'r2 : better r'.pat r2.pat = false := by
+        rw [pat_split r'.pat, pat_split r2.pat]
+        apply better_same_key _ _ _ _ (hR r' hr') (hR r2 hr2) hk2.symm (by rw [hw2])
+        cases endsWild r'.pat <;> simp
+      exact better_negtrans p.trail p.segs r'.pat r2.pat ρ.pat hc'.mat (rm_isSome_match (by rw [hrm2]; rfl)) hρmatch hr'r2 hr2ρ
+    rw [walk_max sat (entriesOf R m) hL p.trail p.segs hseg [] (Ctx.fresh, []) (toEntry ρ) ρ.pat _ hcand hacc hmax]
+    simp [hrm]
 
 end Rivaas.RadixL
